@@ -21,6 +21,7 @@ struct VT {
   std::string line;
   bool line_open = false;
   int consecutive = 0;
+  bool completed = true;  // the last flushed quantum completed an instruction (contains an R token)
 };
 std::vector<VT> vts;
 thread_local int my_tid = -1;
@@ -108,6 +109,7 @@ void
 flush_line_locked(VT &vt)
 {
   if (vt.line_open) {
+    vt.completed = vt.line.find(" R") != std::string::npos;
     std::fputs(vt.line.c_str(), stdout);
     std::fputc('\n', stdout);
     vt.line.clear();
@@ -218,6 +220,58 @@ bool
 tracing()
 {
   return my_tid >= 0;
+}
+
+void
+hb_yield()
+{
+  yield_point();
+}
+
+void
+hb_pseudo(const char *name, const void *addr, uint64_t rd, uint64_t wr)
+{
+  if (my_tid < 0) return;
+  std::unique_lock<std::mutex> lk(mu);
+  open_line(name, addr == nullptr ? std::string("-") : loc_name(addr), "-", "-", rd, wr, true);
+}
+
+namespace
+{
+std::vector<std::thread::native_handle_type> residue_handles;  // handle whose id hashes to residue r
+int residue_mod = 0;
+thread_local int my_probe_start = 0;
+}  // namespace
+
+void
+prepare_thread_ids(int n)
+{
+  residue_mod = n;
+  residue_handles.assign(n, 0);
+  std::vector<bool> have(n, false);
+  int found = 0;
+  for (unsigned long h = 1; found < n && h < 1000000UL; ++h) {
+    std::thread::id id{static_cast<std::thread::native_handle_type>(h)};
+    const auto r = std::hash<std::thread::id>{}(id) % static_cast<size_t>(n);
+    if (!have[r]) {
+      have[r] = true;
+      residue_handles[r] = static_cast<std::thread::native_handle_type>(h);
+      ++found;
+    }
+  }
+}
+
+void
+set_probe_start(int r)
+{
+  my_probe_start = r;
+}
+
+std::thread::id
+chosen_thread_id()
+{
+  if (residue_mod == 0) return std::thread::id{};
+  return std::thread::id{residue_handles[static_cast<size_t>(my_probe_start) % residue_handles.size()]};
 }
 }  // namespace vshim
 
@@ -400,6 +454,15 @@ run(const std::vector<std::function<void()>> &bodies, const Options &opt)
                 best = prio[r];
                 pick = r;
               }
+            break;
+          }
+          case 4: {
+            // sequential histories: a thread keeps the processor until its current instruction is complete
+            const bool boundary = last < 0 || vts[last].finished || vts[last].completed;
+            pick = (!boundary) ? last : runnable[rng() % runnable.size()];
+            bool ok = false;
+            for (int r : runnable) ok = ok || r == pick;
+            if (!ok) pick = runnable[rng() % runnable.size()];
             break;
           }
           default: {
